@@ -217,6 +217,11 @@ def run(ctx: Ctx):
     conversions_drop_caches(ctx, model, "C15", "R-fresh")
     no_memoisation(ctx, model, "C15", "R-fresh", ("pygaps.characterisation.",),
                    "the cached value is keyed by object identity / name and survives a conversion or refit of the same object")
+    ctx.rule("R-acc: the reads the routines rely on - PointIsotherm.pressure / loading / pressure_at / loading_at with explicit target "
+             "representations - return F_out * g(F_in * x) with the permanent-conversion factors for every stored pressure representation and "
+             "every non-fractional stored loading representation (the accessor interpretation of C03, restricted to the property's domain)")
+    from .C03 import accessors_for
+    accessors_for(ctx, "C15", "R-acc", ["point_read", "point_at"], opts={"stored_nonfractional": True}, floor=500)
     from ..sites import no_absolute_tolerance
     no_absolute_tolerance(ctx, model, "C15", "R-scale", ("pygaps.characterisation.",), "unit-bearing isotherm data")
     ctx.rule("R-scale: no comparison with an absolute tolerance on isotherm data inside pygaps.characterisation")
@@ -266,7 +271,8 @@ def run(ctx: Ctx):
 
 META = {
     "technique": "call-site protocol rule: representation pinning of every isotherm read (keyword / dictionary constant "
-                 "propagation inside each function), with an audited exception table",
+                 "propagation inside each function, interpretation for psd_dft / isosteric_enthalpy), with an audited exception table; "
+                 "abstract interpretation of the PointIsotherm accessors against the conversion oracle for the property's domain",
     "level_text": "Static: all isotherm read sites in pygaps.characterisation (enumerated from the source, floor 20) are checked "
                   "to name the pressure and loading representation they need by literals or, for multi-isotherm routines, by "
                   "the first isotherm; a read that omits one (e.g. relative pressures passed with only a unit) makes the "
